@@ -6,7 +6,7 @@ use crate::pool::{sym_u, tname};
 use crate::run::{run_cases, Acc, Ctx};
 use crate::store::{Basic, Simple, Store};
 use crate::util::{fnv_str, panic_site, Json, Rng};
-use crate::value::{construct, readback, Mk, SymPart, V};
+use crate::value::{construct_shared, construct, readback, Mk, SymPart, V};
 use garnish_lang_simple_data::DataError;
 use garnish_lang_traits::{GarnishData, Instruction as I};
 use std::collections::HashMap;
@@ -221,38 +221,6 @@ fn mutate(r: &mut Rng, v: &V) -> V {
 
 // ------------------------------------------------------------------ execution
 
-fn construct_shared<D: Mk>(d: &mut D, v: &V, memo: &mut HashMap<String, usize>) -> Result<usize, DataError> {
-    let key = v.show();
-    if let Some(a) = memo.get(&key) {
-        return Ok(*a);
-    }
-    let a = match v {
-        V::Pair(x, y) => {
-            let l = construct_shared(d, x, memo)?;
-            let r = construct_shared(d, y, memo)?;
-            d.add_pair((l, r))?
-        }
-        V::Concat(x, y) => {
-            let l = construct_shared(d, x, memo)?;
-            let r = construct_shared(d, y, memo)?;
-            d.add_concatenation(l, r)?
-        }
-        V::List(xs) => {
-            let mut addrs = vec![];
-            for x in xs {
-                addrs.push(construct_shared(d, x, memo)?);
-            }
-            let mut li = d.start_list(addrs.len())?;
-            for a in addrs {
-                li = d.add_to_list(li, a)?;
-            }
-            d.end_list(li)?
-        }
-        o => construct(d, o)?,
-    };
-    memo.insert(key, a);
-    Ok(a)
-}
 
 #[derive(Clone, Copy, PartialEq, Debug)]
 pub enum Build {
